@@ -9,7 +9,8 @@ ShapeSeq == SetToSortSeq(Shapes, LAMBDA a, b : TRUE)
 Seqs == UNION {[1..k -> Shapes \X BOOLEAN] : k \in 1..GenMaxLen}
 
 Vec(s) == [steps |-> [i \in DOMAIN s |-> [shape |-> s[i][1], replaced |-> s[i][2], tok |-> i, expect |-> Expect(s[i][1]),
-                                          clone |-> s[i][1] \in CloneShapes]]]
+                                          clone |-> s[i][1] \in CloneShapes,
+                                          keepparams |-> s[i][1] \in KeptParamShapes]]]
 
 Init2 == sq \in Seqs /\ done = FALSE /\ Init
 Next2 == ~done /\ PrintT("VEC" \o ToJson(Vec(sq))) /\ done' = TRUE /\ UNCHANGED <<sq, pool, clones, n, op>>
